@@ -3,7 +3,7 @@
 
 M  TocHostile.tla / Footer.tla: structured input-space models (hostile TOCs: every structure of <= 3 (4) raw entries over
    root / a / a/b with all types, hard links over the same names, plus one entry with deviating numbers / digests /
-   spellings; footers: kind x blob length class x field mutation x offset class x WithTOCOffset) with the reference of
+   spellings; footers: kind x blob length class x field mutation x offset class x zstd LENGTH class (incl. offset+length overflowing int64) x WithTOCOffset) with the reference of
    allowed outcomes; TLC checks the sanity of the reference on the whole space + negative controls.
 R  every enumerated case is concretised to real bytes (harness/estargz/verif_hostile_test.go) and driven, in CHILD
    PROCESSES (a dying or silent child is attributed to the case and entry point in flight), through
@@ -60,7 +60,7 @@ def c04_gen(run, module, cfg, ov, tag, timeout=3000):
 def c04_class(c):
     """input class of a case for finding signatures"""
     if "kind" in c:
-        return "footer:%s:blob=%s:mut=%s:off=%s:opt=%s" % (c["kind"], c["blen"], c["mut"], c["off"], c["opt"])
+        return "footer:%s:blob=%s:mut=%s:off=%s:len=%s:opt=%s" % (c["kind"], c["blen"], c["mut"], c["off"], c.get("len", "ok"), c["opt"])
     if "tar" in c:
         return "tar:" + ("hardlink-loop" if c.get("must") == "reject" else "hardlinks" if any(e["k"] == "hardlink" for e in c["tar"]) else "plain")
     f, g = [], []
@@ -199,7 +199,8 @@ def check(run):
     for ln in bad:
         d = recs[ln - 1]
         c = byid.get(d["case"], {})
-        ep = {"estargz": "estargz.Open", "memory": "memory.NewReader", "db": "db.NewReader"}[d["drv"]] if d["ep"] == "open" else d["ep"]
+        opener = {"estargz": "estargz.Open", "memory": "memory.NewReader", "db": "db.NewReader"}[d["drv"]]
+        ep = opener if d["ep"] == "open" else opener + d["ep"][4:] if d["ep"].startswith("open+") else d["ep"]
         sig = "crash:%s:%s:%s:%s:%s" % (d["drv"], ep, d["out"], c04_where(d), c04_class(c) if c else "?")
         g = groups.setdefault(sig, [d, c, 0])
         g[2] += 1
@@ -226,7 +227,7 @@ def check(run):
     tr2 = os.path.join(run.scratch, "trace_footer.ndjson")
     with open(tr2, "w") as g:
         for d in fl:
-            g.write(json.dumps({"case": d["case"], "f": {k: byid[d["case"]][k] for k in ("kind", "blen", "mut", "off", "opt")}, "ep": d["ep"], "out": d["out"]}) + "\n")
+            g.write(json.dumps({"case": d["case"], "f": {k: byid[d["case"]][k] for k in ("kind", "blen", "mut", "off", "len", "opt")}, "ep": d["ep"], "out": d["out"]}) + "\n")
     r2 = run.tlc("FooterTrace", "FooterTrace.cfg", None, 1, 3000, extra={"trace.ndjson": tr2})
     if not r2.completed or not r2.lines("VDONE"):
         raise Inconclusive("trace validation (footer) broke: %s\n%s" % (r2.error or r2.violated, "\n".join(r2.out.splitlines()[-30:])))
